@@ -10,6 +10,7 @@ import sys
 import time
 
 VERIF = os.path.dirname(os.path.dirname(os.path.abspath(__file__)))
+OUT = os.environ.get('BCMC_OUT') or VERIF      # mutant runs redirect evidence / replays away from /verif
 REPO = os.environ.get('BCMC_REPO', '/repo')
 if os.environ.get('BCMC_REPO'):
     sys.path.insert(0, REPO)
@@ -51,7 +52,7 @@ def log(*a):
 
 
 def write_evidence(pid, ev):
-    path = os.path.join(VERIF, 'evidence', pid + '.json')
+    path = os.path.join(OUT, 'evidence', pid + '.json')
     os.makedirs(os.path.dirname(path), exist_ok=True)
     tmp = path + '.tmp'
     with open(tmp, 'w') as f:
@@ -72,13 +73,13 @@ def write_evidence(pid, ev):
 
 
 def save_replay(pid, tier, seed, v):
-    os.makedirs(os.path.join(VERIF, 'replays'), exist_ok=True)
+    os.makedirs(os.path.join(OUT, 'replays'), exist_ok=True)
     body = {'property': pid, 'tier': tier, 'seed': seed, 'space': v['space'], 'case': v['case'],
             'signature': v['signature'], 'message': v['message'], 'expected': v.get('expected'),
             'observed': v.get('observed')}
     body = jsonable(body)
     hh = hashlib.sha1(json.dumps([body['space'], body['case']], sort_keys=True).encode()).hexdigest()[:12]
-    path = os.path.join(VERIF, 'replays', '%s-%s.json' % (pid, hh))
+    path = os.path.join(OUT, 'replays', '%s-%s.json' % (pid, hh))
     with open(path, 'w') as f:
         json.dump(body, f, indent=1, sort_keys=True)
         f.write('\n')
